@@ -187,6 +187,10 @@ var forestShapes = []shapeDef{
 	{name: "two-files-same-component-name", ext: true},
 	{name: "same-file-two-spellings", ext: true},
 	{name: "fragment-of-whole-file-component", ext: true, nested: true},
+	{name: "escaped-key:tilde-one", schemaOnly: true},
+	{name: "escaped-key:slash", schemaOnly: true},
+	{name: "escaped-key:tilde", schemaOnly: true},
+	{name: "escaped-key:tilde-zero", schemaOnly: true},
 	{name: "non-components-fragment"},
 	{name: "pure-ref-loop"},
 	{name: "dangling-internal"},
@@ -403,6 +407,17 @@ func BuildForest(kind, shape string, pos Position, layout, spelling, entry strin
 		addComponent(root, "schemas", "Aaa", map[string]any{"type": "object", "description": "AAA", "properties": map[string]any{
 			"inner": map[string]any{"$ref": relRef(rootLoc, f1Loc, "plain") + "#" + nestedSchemaPointer[kind]}}})
 		planted = r1
+	case "escaped-key:tilde-one", "escaped-key:slash", "escaped-key:tilde", "escaped-key:tilde-zero":
+		// property names that need JSON-pointer escaping (RFC 6901: "~1" is "/", "~0" is "~", decoded in that order),
+		// all four present side by side so that a wrong decoding lands on a neighbour
+		props := map[string]any{}
+		for _, k := range []string{"a~1b", "a/b", "a~b", "a~0b"} {
+			props[k] = map[string]any{"type": "string", "description": "PROPERTY " + k}
+		}
+		addComponent(root, sec, "Holder", map[string]any{"type": "object", "properties": props})
+		key := map[string]string{"escaped-key:tilde-one": "a~1b", "escaped-key:slash": "a/b", "escaped-key:tilde": "a~b", "escaped-key:tilde-zero": "a~0b"}[shape]
+		tok := strings.ReplaceAll(strings.ReplaceAll(key, "~", "~0"), "/", "~1")
+		planted = frag(sec, "Holder") + "/properties/" + tok
 	case "non-components-fragment":
 		switch kind {
 		case "schema":
